@@ -5,6 +5,7 @@ from engine import site
 
 CONFIGS = ['prod']
 EXPLANATION = (
+    'HLC: the sequential clock the actor owns (HLCTimestamp::send / recv) summarised over the order types of clock, wall and message time and compared with the hybrid-clock algorithm (= C09.SEM re-evaluated: the actor only serialises, the clock makes the stamps increase). '
     'Decided clauses: SEM the actor loop (found by role: the coroutine that receives from a channel and advances an HLCTimestamp) is interpreted '
     'sequentially on the queue [Get, Register r1, Get, Register r2], every registered stamp both accepted and refused by the clock (actor_abs; a refusal leaves the clock as it was): it issues one stamp per Get and answers exactly that stamp, merges '
     'every registered stamp, in queue order, consuming every event; K1 who-may-call — outside datacake-crdt the only callers of HLCTimestamp::send / ::recv are inside the clock '
@@ -29,6 +30,11 @@ def check(ctx):
     # ---- SEM: the actor loop, found by role and interpreted on a queue of requests (actor_abs) -------------------------------
     import actor_abs
     sem = actor_abs.check_clock_actor(ctx, facts, 'C11.SEM')
+    # HLC: the actor serialises the callers; what makes the stamps it issues distinct, increasing and above every registered stamp is the
+    # sequential clock it owns — send / recv summarised (= C09.SEM, re-evaluated under C11; where the summary declines C09's structural
+    # clauses decide and nothing is reported here).  Round 6, C11f: a recv whose same-tick branch restarted the counter at 0.
+    import hlc_abs
+    hlc_abs.check_hlc(ctx, facts, 'C11.HLC')
     # the client side of the clock, interpreted: every foreign stamp handed to register_ts reaches the actor on every path
     # (with a waiting send), get_time returns exactly the actor's reply to its own request
     sem_handle = actor_abs.check_clock_handle(ctx, facts, 'C11.SEM')
